@@ -25,7 +25,7 @@ def conc_cfg(cap=200, kind="opt", minseg=8, retries=2, backend="vec", unify=Fals
     return c
 
 
-def run_conc(binary, drivers, tag, timeout=1800, keep_files=False):
+def run_conc(binary, drivers, tag, timeout=600, keep_files=False):
     """Run conc drivers; a stuck driver ends the process (exit 3): restart with the remaining drivers."""
     wd = rv.ensure_dir(os.path.join(rv.WORK, "conc", tag))
     tfile = os.path.join(wd, "trace.ndjson")
